@@ -160,7 +160,7 @@ func intEnv(name string, def int) int {
 
 // Run is the parent.
 func Run(r *ev.Run) {
-	r.Rule = "per decoder target a fixed number of inputs (quick 3000 x weight, thorough 100000 x weight), pure function of (VERIF_SEED, tier, target, chunk) up to the randomness of Acra's own key generation/encryption used to build the valid artefacts; " +
+	r.Rule = "per decoder target a fixed number of inputs (quick 3000 x weight, thorough 30000 x weight), pure function of (VERIF_SEED, tier, target, chunk) up to the randomness of Acra's own key generation/encryption used to build the valid artefacts; " +
 		"input = valid artefact built with the real constructors, then one construction class: valid | field:<artefact>.<field> set to a boundary value {0,1,2,cur-1,cur+1,0x7f,0x80,0xff,0xfb-0xfe,0x7fff,0x8000,0xffff,2^24-1,2^31-1,2^31,2^32-1,2^63-1,2^63,2^64-1,remaining,remaining+-1} | field2 | trunc | bitflip | random | extend | blindint | fill | cutout/dupseg (text targets: token edits, nesting bombs, nasty bytes, long tokens); " +
 		"each input is one evaluation: the decoder is called in a child process under recover(), allocation (runtime /gc/heap/allocs:bytes delta) and CPU time (getrusage) measured; " +
 		"distinct_nontrivial = distinct (target, outcome class in {ok, err:<error class>, panic:<site>:<class>, fatal}, input-construction class) tuples actually observed"
@@ -189,8 +189,8 @@ func Run(r *ev.Run) {
 	}
 	defer os.RemoveAll(w.dir)
 
-	per := intEnv("VERIF_C14_N", r.Pick(3000, 100000))
-	chunk := intEnv("VERIF_C14_CHUNK", r.Pick(1000, 10000))
+	per := intEnv("VERIF_C14_N", r.Pick(3000, 30000))
+	chunk := intEnv("VERIF_C14_CHUNK", r.Pick(1000, 5000))
 	workers := intEnv("VERIF_C14_WORKERS", 12)
 	sel := os.Getenv("VERIF_C14_TARGETS")
 
@@ -434,6 +434,15 @@ func (m *monitor) runChunk(t *target, chunk, n int) {
 			m.mu.Unlock()
 			r.Case()
 			r.Distinct(t.name + "|fatal:" + class + "|" + ins[k].class)
+			if class == "out of memory" && !shim {
+				// the children run under a tight address-space limit (an accelerator, not an oracle): decide the input
+				// again under a loose limit, at most twice per site
+				if verdict := m.recheckOOM(t, chunk, k, ins, fn); verdict != "" {
+					r.Count("oom_under_tight_limit:"+verdict, 1)
+					from = k + 1
+					continue
+				}
+			}
 			if shim {
 				r.Inconclusive("fatal exit inside the gothemis stand-in, target " + t.name)
 			} else {
@@ -450,6 +459,83 @@ func (m *monitor) runChunk(t *target, chunk, n int) {
 			break
 		}
 	}
+}
+
+// recheckOOM re-runs an input that died with "out of memory" under the tight address-space limit in a fresh child with
+// a loose limit. It returns "" when the fatal exit stands as observed (re-check budget for this site used up: the site
+// was already confirmed twice), otherwise the verdict it reported itself.
+func (m *monitor) recheckOOM(t *target, chunk, k int, ins []input, fn string) string {
+	r := m.r
+	key := "oom|" + t.name + "|" + fn
+	m.mu.Lock()
+	n := m.susKeys[key]
+	confirmed := m.susKeys[key+"|confirmed"]
+	if n >= 2 && confirmed == n {
+		m.mu.Unlock()
+		return ""
+	}
+	if n >= 6 {
+		m.mu.Unlock()
+		r.Inconclusive("out-of-memory exit under the tight address-space limit not re-checked (budget used): target " + t.name + " site " + fn)
+		return "not-rechecked"
+	}
+	m.susKeys[key]++
+	seq := m.susKeys["oomseq"]
+	m.susKeys["oomseq"]++
+	m.mu.Unlock()
+	base := filepath.Join(m.scratch, fmt.Sprintf("oom-%d", seq))
+	batch := base + ".batch"
+	writeBatch(batch, []input{ins[0], ins[k]})
+	defer os.Remove(batch)
+	j, e := base+".j", base+".e"
+	jp, _, wallKilled := m.runChild(t, batch, j, e, 0, "", "VERIF_C14_AS_HEADROOM_MB=1536")
+	stderrB, _ := os.ReadFile(e)
+	os.Remove(j)
+	os.Remove(e)
+	bound := t.allocLimit(len(ins[k].data))
+	for _, rec := range jp.recs {
+		if rec.idx != 1 {
+			continue
+		}
+		if rec.alloc <= bound && rec.kind != 'p' {
+			// completed within the allocation bound: the tight limit was the cause, not the decoder
+			return "passed-with-loose-limit"
+		}
+		site := fn
+		if a, ok := jp.allocAt[1]; ok {
+			if p := strings.SplitN(a, " ", 2); len(p) == 2 && p[1] != "?" {
+				site = p[1]
+			}
+		}
+		m.mu.Lock()
+		m.susKeys[key+"|confirmed"]++
+		m.mu.Unlock()
+		r.Violation(fmt.Sprintf("alloc target=%s site=%s", t.name, site), m.detail(t, chunk, k, ins[k], map[string]interface{}{
+			"allocated_bytes": rec.alloc, "bound_bytes": bound, "note": "died with out of memory under the tight address-space limit, re-run under a loose one"}))
+		r.SetAdd("alloc_sites", site)
+		return "alloc-violation"
+	}
+	if wallKilled {
+		r.Inconclusive("wall-clock watchdog during the loose-limit re-run of an out-of-memory exit, target " + t.name)
+		return "inconclusive"
+	}
+	// died again (or was stopped by the CPU watchdog while touching the allocation)
+	m.mu.Lock()
+	m.susKeys[key+"|confirmed"]++
+	m.mu.Unlock()
+	if jp.last.cpuStop && jp.last.cpuAlloc > bound {
+		r.Violation(fmt.Sprintf("alloc target=%s site=%s", t.name, fn), m.detail(t, chunk, k, ins[k], map[string]interface{}{
+			"allocated_bytes_when_stopped": jp.last.cpuAlloc, "bound_bytes": bound, "note": "re-run under a loose address-space limit"}))
+		r.SetAdd("alloc_sites", fn)
+		return "alloc-violation"
+	}
+	class, fn2, _ := classifyFatal(string(stderrB))
+	if fn2 == "" {
+		fn2 = fn
+	}
+	r.Violation(fmt.Sprintf("fatal target=%s fn=%s class=%s", t.name, fn2, class), m.detail(t, chunk, k, ins[k], map[string]interface{}{
+		"stderr_tail": tail(string(stderrB), 6000), "note": "second run, under a loose address-space limit (1.5 GiB head-room)"}))
+	return "fatal-confirmed"
 }
 
 // afterGoroutine1 returns the stack of goroutine 1 from an all-goroutines dump.
@@ -480,6 +566,7 @@ type jrec struct {
 	idx     int
 	alloc   uint64
 	cpu     int64
+	wall    int64
 	payload string
 }
 
@@ -497,7 +584,7 @@ type jparsed struct {
 }
 
 // runChild executes one child and parses its journal.
-func (m *monitor) runChild(t *target, batch, journal, errPath string, from int, mode string) (jp jparsed, ended bool, wallKilled bool) {
+func (m *monitor) runChild(t *target, batch, journal, errPath string, from int, mode string, extraEnv ...string) (jp jparsed, ended bool, wallKilled bool) {
 	ctx, cancel := context.WithTimeout(context.Background(), m.wallMax)
 	defer cancel()
 	args := []string{"C14", "child", t.name, batch, journal, strconv.Itoa(from)}
@@ -506,6 +593,7 @@ func (m *monitor) runChild(t *target, batch, journal, errPath string, from int, 
 	}
 	cmd := exec.CommandContext(ctx, m.bin, args...)
 	cmd.Env = append(os.Environ(), "GOMAXPROCS=2", "GORACE=halt_on_error=0 log_path="+errPath+".race")
+	cmd.Env = append(cmd.Env, extraEnv...)
 	ef, err := os.Create(errPath)
 	if err == nil {
 		cmd.Stderr = ef
@@ -582,8 +670,8 @@ func parseJournal(path string) (jp jparsed) {
 		if !strings.HasPrefix(l, "R ") {
 			continue
 		}
-		p := strings.SplitN(l, " ", 6)
-		if len(p) < 6 {
+		p := strings.SplitN(l, " ", 7)
+		if len(p) < 7 {
 			continue
 		}
 		var rec jrec
@@ -591,7 +679,8 @@ func parseJournal(path string) (jp jparsed) {
 		rec.kind = p[2][0]
 		rec.alloc, _ = strconv.ParseUint(p[3], 10, 64)
 		rec.cpu, _ = strconv.ParseInt(p[4], 10, 64)
-		rec.payload = p[5]
+		rec.wall, _ = strconv.ParseInt(p[5], 10, 64)
+		rec.payload = p[6]
 		jp.recs = append(jp.recs, rec)
 	}
 	return
@@ -618,8 +707,8 @@ func (m *monitor) consume(t *target, chunk int, ins []input, jp jparsed) jlast {
 		}
 		s.cpuUs += rec.cpu
 		s.CPUMs = s.cpuUs / 1000
-		if slow := intEnv("VERIF_C14_SLOW_MS", 0); slow > 0 && rec.cpu > int64(slow)*1000 {
-			fmt.Fprintf(os.Stderr, "c14-slow: %s idx=%d cpu=%dms alloc=%d class=%s detail=%s len=%d\n", t.name, rec.idx, rec.cpu/1000, rec.alloc, in.class, in.detail, len(in.data))
+		if slow := intEnv("VERIF_C14_SLOW_MS", 0); slow > 0 && (rec.cpu > int64(slow)*1000 || rec.wall > int64(slow)*1000) {
+			fmt.Fprintf(os.Stderr, "c14-slow: %s idx=%d wall=%dms cpu=%dms alloc=%d class=%s detail=%s len=%d\n", t.name, rec.idx, rec.wall/1000, rec.cpu/1000, rec.alloc, in.class, in.detail, len(in.data))
 		}
 		switch rec.kind {
 		case 'o':
